@@ -113,6 +113,8 @@ def run_unit(run, unit, expanded, twins):
     """generate + verify one unit. returns dict"""
     ucfg = UNITS[unit]
     out = {'unit': unit, 'status': 'ok', 'errors': [], 'blocks': {}, 'undecided': [], 'trusted': []}
+    if ucfg.get('kind') == 'kani':
+        return run_kani_unit(run, unit, ucfg, out)
     g = genmod.Gen(REPO, expanded, twins=twins)
     try:
         g.run(ucfg['spec'])
@@ -149,6 +151,42 @@ def run_unit(run, unit, expanded, twins):
         msgs = [e['message'] for e in errs][:5]
         out['undecided'].append('verus could not process the unit (rustc/VIR error): ' + ' | '.join(msgs))
     out['trusted'] = scan_trusted(gen_path)
+    return out
+
+
+KANI_WITNESS = {}
+
+
+def run_kani_unit(run, unit, ucfg, out):
+    """Kani leaves: one obligation per leaf; a pass with unwinding assertions on is a complete proof"""
+    import kani_leaf
+    out.update({'verified': 0, 'errors_n': 0, 'smt_ms': 0, 'wall_s': 0.0, 'backend': 'kani', 'cmd': None})
+    for oblig in ucfg['leaves']:
+        try:
+            r = kani_leaf.run(REPO, SCRATCH, oblig, run.log)
+        except Exception as e:
+            r = {'status': 'error', 'detail': repr(e)}
+        out['wall_s'] += r.get('wall_s', 0)
+        if r['status'] == 'lost-anchor':
+            out['status'] = 'lost-anchor'
+            out['undecided'].append('lost-anchor: %s' % r.get('detail'))
+            return out
+        if r['status'] == 'error':
+            out['status'] = 'not-verifiable'
+            out['undecided'].append('kani could not process leaf %s: %s' % (oblig, (r.get('output') or r.get('detail') or '')[-400:]))
+            return out
+        out['cmd'] = r['cmd']
+        out['blocks'][oblig] = {'kind': 'kani-leaf', 'src': r['src'], 'what': r['what'], 'line_lo': r['line'], 'line_hi': r['line'] + r['stmt'].count('\n'),
+                                'sha': r['sha'], 'gen_lo': 0}
+        if r['status'] == 'ok':
+            out['verified'] += 1
+        else:
+            out['errors_n'] += 1
+            out['errors'].append({'block': oblig, 'cls': 'definite', 'message': 'Kani: the assertion of the leaf harness fails (VERIFICATION:- FAILED)',
+                                  'spans': [{'file': r['src'], 'line': r['line'], 'kind': 'code'}], 'rendered': r['output']})
+            if r.get('witness'):
+                KANI_WITNESS[oblig] = r['witness']
+    out['trusted'] = ['kani/cbmc: soundness of Kani 0.68 / CBMC 6.11; machine integers are bit-precise (no A-arith abstraction)']
     return out
 
 
@@ -242,7 +280,7 @@ def finish(run, results, undecided=None):
             obligations.remove(b)   # reported separately; never counted as discharged
             continue
         in_base = b in baseline.get(unit, [])
-        witness = find_witness(run, unit, b, info, errs)
+        witness = KANI_WITNESS.get(b) or find_witness(run, unit, b, info, errs)
         if not witness and 'definite' not in classes:
             undec_fail.append('%s: obligation %s not discharged (%s): %s' % (unit, b, ','.join(sorted(classes)), detail))
             continue
@@ -308,7 +346,7 @@ def finish(run, results, undecided=None):
             'checker_cmd': ' && '.join(cmds) if cmds else 'verus <gen/unit.rs> --output-json --time',
             'trusted_base': sorted(set(trusted)),
             'functions_under_contract': fn_list,
-            'by_backend': {'verus': len(discharged), 'kani': 0},
+            'by_backend': {'verus': len([d for d in discharged if not d.startswith('L.')]), 'kani': len([d for d in discharged if d.startswith('L.')])},
             'per_unit': by_unit,
             'solver_ms': solver_ms,
             'vacuity_twins': {'generated': twins_total, 'failed_as_required': twins_failed},
